@@ -108,6 +108,38 @@ pub fn call(name: &str, args: &[String]) -> Value {
             Ok(_) => json!({"ok": "access-point"}),
             Err(e) => json!({"err": format!("{e:?}")}),
         },
+        "event_stream_demo" => {
+            use futures::StreamExt;
+            use s3s::dto::*;
+            let big: Vec<u8> = (0..65536u32).map(|i| (i % 251) as u8).collect();
+            let payloads: Vec<Vec<u8>> = vec![vec![], vec![0x41], vec![0u8; 255], vec![0xffu8; 256], big, b"a,b\r\n\x00\xfe".to_vec()];
+            let mut evs: Vec<s3s::S3Result<SelectObjectContentEvent>> = vec![];
+            let mut expected = vec![];
+            for p in &payloads {
+                evs.push(Ok(SelectObjectContentEvent::Records(RecordsEvent { payload: Some(bytes::Bytes::from(p.clone())) })));
+                expected.push(json!(["Records", crate::hex(p)]));
+            }
+            evs.push(Ok(SelectObjectContentEvent::Cont(ContinuationEvent::default())));
+            expected.push(json!(["Cont", ""]));
+            evs.push(Err(s3s::S3Error::with_message(s3s::S3ErrorCode::from_bytes(b"ZzCustom").unwrap_or(s3s::S3ErrorCode::InternalError), "boom <&>")));
+            expected.push(json!([if s3s::S3ErrorCode::from_bytes(b"ZzCustom").is_some() { "ZzCustom" } else { "InternalError" }, ""]));
+            evs.push(Ok(SelectObjectContentEvent::End(EndEvent::default())));
+            expected.push(json!(["End", ""]));
+            let stream = SelectObjectContentEventStream::new(futures::stream::iter(evs));
+            let mut bs = stream.into_byte_stream();
+            let rt = tokio::runtime::Builder::new_current_thread().build().unwrap();
+            let mut all = vec![];
+            let mut errs = vec![];
+            rt.block_on(async {
+                while let Some(x) = bs.next().await {
+                    match x {
+                        Ok(b) => all.extend_from_slice(&b),
+                        Err(e) => errs.push(format!("{e:?}")),
+                    }
+                }
+            });
+            json!({"frames_hex": crate::hex(&all), "expected": expected, "stream_errors": errs})
+        }
         "error_status" => {
             let c = s3s::S3ErrorCode::from_bytes(args[0].as_bytes());
             json!({"known": c.is_some(), "status": c.and_then(|c| c.status_code()).map(|s| s.as_u16())})
